@@ -244,3 +244,37 @@ def gen_deque_case(rng, i):
     for _ in range(rng.randrange(0, 4)):
         lines.append("POP")
     return (f"d{i}_deque{n}", lines)
+
+
+def gen_reinsert_case(rng, kind, i):
+    """Invalidation followed by re-insertion of the same keys, with clock advances landing between
+    the deadlines of the old and of the new entry (C07: re-inserted keys remain retrievable)."""
+    cfg = gen_cfg(rng, kind, "expiry")
+    cfg["cap"] = rng.choice(["none", "none", 3, 8])
+    cfg["weigher"] = "none"
+    d = max([x for x in (cfg["ttl"], cfg["tti"]) if x != "none"])
+    lines = [cfg_line(cfg)]
+    keys = [1, 2, 3]
+    for k in keys:
+        lines.append(f"I {k} {k * 10}")
+    if kind == "sync" and rng.random() < 0.7:
+        lines.append("S")
+    t1 = rng.choice([d // 3, d // 2, d - 1, 1])
+    lines.append(f"D {t1}")
+    inv = rng.choice(["X", "X", "A", "P"])
+    k = rng.choice(keys)
+    lines.append({"X": f"X {k}", "A": "A", "P": f"P kmod 4 {k % 4}"}[inv] if kind == "unsync" or inv != "P" else f"X {k}")
+    if kind == "sync" and rng.random() < 0.5:
+        lines.append("S")
+    if rng.random() < 0.6:
+        lines.append(f"D {rng.choice([1, d // 4])}")
+    lines.append(f"I {k} {k * 10 + 1}")
+    if kind == "sync" and rng.random() < 0.5:
+        lines.append("S")
+    # land after the OLD entry's deadline but before the new one's
+    lines.append(f"D {max(d - t1, 1)}")
+    lines += [f"G {k}", f"C {k}", "T"]
+    if kind == "sync":
+        lines += ["S", f"G {k}", "T"]
+    lines += [f"D {rng.choice([1, d // 4])}", f"G {k}", "T"]
+    return (f"{kind[0]}{i}_reinsert", lines)
